@@ -12,6 +12,7 @@ import json
 
 from .. import core, tablekit as tk, tablerun as tr
 from .C05 import SELS
+from ..core import outcome
 
 FORMATS = ["bed6", "bed12", "bed3", "narrowpeak", "vcf", "sam", "bedgraph", "fastq", "fasta2", "vcfgt"]
 RULE = ("one case = one program of table operations ending in a write (TLC state of MC_C05) x format x variant (non-canonical "
@@ -94,6 +95,33 @@ def check_vector(v):
     return {"n": n, "nt": nt, "bad": bad, "traces": 1}
 
 
+def check_big(job):
+    """Tables of many records (the writer and the buffers work in pieces above some sizes): the records of a small non-canonical source
+    repeated; what a table writes is the row bytes of its rows in order (Table.tla!BytesL0 is defined row by row), so the expectation is
+    the source's record bytes repeated."""
+    import bionumpy as bnp
+    fmt, n = job
+    data, raws, hdr = tk.source_bytes(fmt, "noncanon")
+    reps = -(-n // len(raws))
+    body = (b"".join(raws) * reps)
+    recs = (raws * reps)[:n]
+    body = b"".join(recs)
+    bad, calls = [], 0
+    t = outcome(lambda: tk.open_table(fmt, data[:hdr] + body, True).read())
+    if t[0] == "err" or len(t[1]) != n:
+        return {"n": 1, "nt": [], "bad": [{"what": "a %s file of %d records cannot be read lazily" % (fmt, n), "tags": {"format": fmt, "kind": "big-read", "n": n}, "vector": {"fmt": fmt, "n": n},
+                                           "expected": n, "observed": str(t)[:200]}]}
+    for name, sel, want in (("whole", lambda x: x, body), ("reversed", lambda x: x[::-1], b"".join(recs[::-1])), ("every other", lambda x: x[::2], b"".join(recs[::2]))):
+        o = outcome(lambda: tk.write_bytes(fmt, sel(t[1])))
+        calls += 1
+        got = o[1] if o[0] == "ok" else None
+        if o[0] != "ok" or got != want:
+            bad.append({"what": "a table of %d unmodified records (%s) is not written as its record bytes in order" % (n, name),
+                        "tags": {"format": fmt, "kind": "big-write", "n": n, "selection": name, "multiple_of_65536": n % 65536 == 0},
+                        "vector": {"fmt": fmt, "n": n}, "expected": "%d bytes" % len(want), "observed": ("%d bytes" % len(got)) if got is not None else str(o)[:200]})
+    return {"n": calls, "nt": ["big|%s|%d" % (fmt, n)], "bad": bad}
+
+
 def run(ctx):
     quick = ctx.tier == "quick"
     invs = ["Equivalent", "Aligned", "PassThrough", "ContigSound", "Emit"]
@@ -133,6 +161,9 @@ def run(ctx):
     ctx.sample(vectors[3])
     ctx.sample(vectors[len(vectors) // 2])
     ctx.absorb(core.pmap(check_vector, vectors, chunk=15))
+    # many records: around the piece sizes of the writer (multiples of 65536 and their neighbours)
+    sizes = [65535, 65536, 65537, 131072, 131073, 196608] if quick else [65535, 65536, 65537, 131071, 131072, 131073, 196608, 262144, 300000]
+    ctx.absorb(core.pmap(check_big, [(f, n_) for f in (("bed6",) if quick else ("bed6", "vcf", "fastq")) for n_ in sizes], chunk=1))
     ctx.exhaustive = True
     return ctx.finish(RULE, assumptions=[
         "programs made of selections only are compared byte for byte; once a program concatenates or replaces a column the "
